@@ -15,7 +15,7 @@ def cvp (x : CertX) : Val := certV x.1 x.2
 def csWalkBody : List Stmt := rangeBody (x509_ValidateCodeSigningCertChain.body.getD 2 (.opaque ""))
 
 /-- the store of `ValidateCodeSigningCertChain` when the loop is entered -/
-def walkStore (L : List Val) (st : Option Int) : Store := [[("signingTime", optT st), ("certChain", .list L)]]
+def walkStore (L : List Val) (st : Option Int) : Store := [[("v1", optT st), ("v0", .list L)]]
 
 @[simp] theorem flatten_certV (c : Cert) (e : List (Int × Bool)) : flatten [certV c e] = [certV c e] := rfl
 
@@ -33,9 +33,9 @@ theorem csWalkStep (n : Nat) (L : List Val) (st : Option Int) (i : Nat) (c : Cer
     (hlen : (L.length : Int) = i + 1 + r.length)
     (hidx : ∀ p' r', r = p' :: r' → L[i + 1]? = some (cvp p')) :
     (fun s => execBlock ⟨"ValidateCodeSigningCertChain", prims sig sigSelf, sem (prims sig sigSelf) funcs (n + 3)⟩ s csWalkBody)
-        ([("cert", cvp c), ("i", .int i)] :: walkStore L st)
+        ([("v7", cvp c), ("v6", .int i)] :: walkStore L st)
       = match iter sig sigSelf i c.1 (r.map (·.1)) st with
-        | .ok _ => .next ([("cert", cvp c), ("i", .int i)] :: walkStore L st)
+        | .ok _ => .next ([("v7", cvp c), ("v6", .int i)] :: walkStore L st)
         | .error e => .ret [site .codeSigning e] := by
   obtain ⟨c, ce⟩ := c
   simp only at hc
@@ -149,7 +149,7 @@ theorem loopFrom_cons_iter (st : Option Int) (i : Nat) (c : Cert) (rest : List C
 theorem csWalkLoop (n : Nat) (L : List Val) (st : Option Int) : ∀ (rest : List CertX) (pre : List Val),
     L = pre ++ rest.map cvp → (∀ x ∈ rest, ExtsAgree x.1 x.2) →
     rangeLoop (fun s => execBlock ⟨"ValidateCodeSigningCertChain", prims sig sigSelf, sem (prims sig sigSelf) funcs (n + 3)⟩ s csWalkBody)
-        "i" "cert" pre.length (rest.map cvp) (walkStore L st)
+        "v6" "v7" pre.length (rest.map cvp) (walkStore L st)
       = match loopFrom .codeSigning sig sigSelf st pre.length (rest.map (·.1)) with
         | .ok _ => .next (walkStore L st)
         | .error e => .ret [site .codeSigning e] := by
